@@ -320,7 +320,8 @@ func execAtomic(plan *simkit.Plan) *simkit.Result {
 func genHousekeeping(p *simkit.Plan, r *simkit.Rand, tier string) {
 	day := int64(24 * 3600)
 	ages := func(threshold int64) int64 {
-		return simkit.Pick(r, []int64{0, day, threshold - day, threshold - 1, threshold, threshold + 1, threshold + day, 3 * threshold})
+		return simkit.Pick(r, []int64{0, day, threshold - day, threshold - 1, threshold, threshold + 1, threshold + day, 3 * threshold,
+			threshold - 1800, threshold + 1800, threshold - 3599, threshold + 3599})
 	}
 	n := r.Range(2, 14)
 	for i := 0; i < n; i++ {
@@ -353,11 +354,35 @@ func genHousekeeping(p *simkit.Plan, r *simkit.Rand, tier string) {
 		p.Ops = append(p.Ops, simkit.Op{Actor: "clock", Kind: "jump", N: []int64{simkit.Pick(r, []int64{0, 3600, day - 1, day, 6 * day, 23 * day, 40 * day})}})
 		p.Ops = append(p.Ops, simkit.Op{Actor: "clock", Kind: "housekeep"})
 	}
+	// The local time zone of the process and the date at which the run starts:
+	// thresholds are durations, so neither may matter - also when a daylight
+	// saving transition lies inside the window (the simulated clock starts on
+	// 2000-01-01; transitions of that year fall on days 85-92 and 302 in the
+	// north, 86 and 239 in Sydney).
+	p.Cfg["tz"] = int64(r.Intn(4))
+	if r.Chance(1, 2) {
+		p.Cfg["start_s"] = int64(r.Intn(340))*day + int64(r.Intn(int(day)))
+	} else {
+		p.Cfg["start_s"] = simkit.Pick(r, []int64{0, 86, 88, 93, 95, 100, 240, 243, 303, 305, 310, 330})*day + int64(r.Intn(int(day)))
+	}
 }
+
+var housekeepingZones = []string{"", "America/New_York", "Europe/Berlin", "Australia/Sydney"}
 
 func execHousekeeping(t *testing.T, plan *simkit.Plan) *simkit.Result {
 	var nontrivial bool
-	res := simkit.Run(t, plan, simkit.Options{MaxSteps: 1000, Horizon: 400 * 24 * time.Hour}, func(s *simkit.Sim) {
+	res := simkit.Run(t, plan, simkit.Options{MaxSteps: 1000, Horizon: 800 * 24 * time.Hour}, func(s *simkit.Sim) {
+		if zone := housekeepingZones[int(plan.Cfg["tz"])%len(housekeepingZones)]; zone != "" {
+			if loc, err := time.LoadLocation(zone); err == nil {
+				prevLocal := time.Local
+				time.Local = loc
+				defer func() { time.Local = prevLocal }()
+				s.Count("probe.dst_zone", 1)
+			}
+		}
+		if start := plan.Cfg["start_s"]; start > 0 {
+			time.Sleep(time.Duration(start) * time.Second)
+		}
 		base, err := simkit.MkdirTemp("/dev/shm", "verif-housekeeping-")
 		if err != nil {
 			panic(err)
